@@ -84,7 +84,8 @@ func c12Producer(r *Run, t *tape.Tape) {
 	}
 	if t.Bool(1, 4, "c12.rawunprot") {
 		// caller-supplied raw unprotected bytes
-		raws := [][]byte{{0xa0}, {0xa1, 0x04, 0x41, 0x31}, {0xa1, 0x03, 0x18, 0x2a}, {0xa1, 0x19, 0x01, 0x02, 0x26}, {0xa1, 0x19, 0x01, 0x03, 0x01}, {0xa1, 0x19, 0x01, 0x04, 0x61, 0x78}}
+		raws := [][]byte{{0xa1, 0x04, 0x01}, {0xa1, 0x02, 0x81, 0x04}, {0xa2, 0x05, 0x41, 0x01, 0x06, 0x41, 0x02}, {0xa1, 0x07, 0x40}, {0xa1, 0x09, 0x01}, {0xa1, 0x01, 0x41, 0x26},
+			{0xa0}, {0xa1, 0x04, 0x41, 0x31}, {0xa1, 0x03, 0x18, 0x2a}, {0xa1, 0x19, 0x01, 0x02, 0x26}, {0xa1, 0x19, 0x01, 0x03, 0x01}, {0xa1, 0x19, 0x01, 0x04, 0x61, 0x78}}
 		h.RawUnprotected = raws[t.Choose(len(raws), "c12.rawunprot.v")]
 		class += "+rawunprot"
 		if t.Bool(1, 3, "c12.rawunprot.ivpair") {
